@@ -1,2 +1,261 @@
+"""C02, engine M: Wilson / Wald formulas, exact integer domains, ratio front end (see props/c02.py)."""
+from fractions import Fraction
+from mirsmt import engine as E, term as T, mir
+from props.common_m import *
+
+TRUSTED = ['real-arithmetic semantics for floats in the formula obligations (R); integers exact (Int) in the domain obligations, relaxed to reals in the formula obligations',
+           'ratio front end: reals with a relative rounding error |delta| <= 2^-53 per float operation (standard model, valid absent under/overflow) for n <= 2^32',
+           'oracle Zq(p) = statrs Normal(0,1).inverse_cdf, uninterpreted', 'MIR call models listed under call_models_used', 'z3 5.1 nlsat']
+
+n_i, k_i = T.var('n', 'i'), T.var('k', 'i')
+n_f, k_f = T.mk('i2f', n_i), T.mk('i2f', k_i)
+Z = T.var('Z')
+
+
 def run(ctx):
-    pass
+    ctx.trusted_base = TRUSTED
+    ctx.assumptions += [
+        'M: formula obligations are real-arithmetic identities/inequalities for all real n >= 4, 2 <= k <= n-2 and every real z (sign as stated per obligation); domain obligations are exact over the integers',
+    ]
+    m = E.MEngine(ctx)
+    if not m.ok:
+        return
+    try:
+        wilson(ctx, m)
+        wald(ctx, m)
+        ratio(ctx, m)
+        frontends(ctx, m)
+    except mir.Stuck as e:
+        m.stuck('C02:M', 'unsupported construct: %s' % e)
+    m.finish()
+
+
+def domain_obligations(m, prefix, paths, spec):
+    """spec: {outcome class: condition term over ints}. Each path's condition must imply the class condition (paths
+    partition the input space, so implication per path gives equivalence)."""
+    INT = ('R', 'int')
+    nonneg = [T.mk('ige', n_i, T.iconst(0)), T.mk('ige', k_i, T.iconst(0))]
+    for p in paths:
+        v = p['value']
+        if p['rk'] == 'stuck':
+            m.stuck(prefix + ':path', v[1])
+            continue
+        if p['rk'] == 'panic':
+            m.submit('%s:no-panic[%s]' % (prefix, v[1][:30]), p['pc'] + nonneg + LEVEL_OK, T.bconst(False), sem=INT, key=prefix + ':panic', note='panic path infeasible for all n, k >= 0')
+            continue
+        cls = None
+        if E.is_ok(v):
+            cls = 'Ok'
+        elif E.is_err(v):
+            e = v[3][0]
+            cls = mir.VARIANTS['CIError'][e[2]] if e[0] == 'adt' and e[1] == 'CIError' else 'other'
+        if cls == 'IntervalError':
+            cls = 'Ok'           # inverted bounds can only arise inside the admissible domain
+        if cls not in spec:
+            m.violated_structurally('%s:domain:%s' % (prefix, cls), prefix + ':domain', 'undocumented outcome %s' % cls)
+            continue
+        m.submit('%s:domain:%s:%s' % (prefix, cls, KNAME[p['kind']] if p['kind'] is not None else 'any'), p['pc'] + nonneg + LEVEL_OK, spec[cls], sem=INT,
+                 key='%s:domain:%s' % (prefix, cls), note='outcome %s exactly on its documented domain' % cls)
+
+
+def wilson(ctx, m):
+    paths = proportion_paths(m, 'ci_wilson')
+    ctx.extra['ci_wilson_paths'] = len(paths)
+    two = T.iconst(2)
+    spec = {'InvalidSuccesses': T.mk('igt', k_i, n_i),
+            'TooFewSuccesses': T.and_(T.mk('ile', k_i, n_i), T.mk('ilt', k_i, two)),
+            'TooFewFailures': T.and_(T.mk('ile', k_i, n_i), T.mk('ige', k_i, two), T.mk('ilt', T.mk('isub', n_i, k_i), two)),
+            'Ok': T.and_(T.mk('ige', k_i, two), T.mk('ile', k_i, n_i), T.mk('ige', T.mk('isub', n_i, k_i), two))}
+    domain_obligations(m, 'C02:wilson', paths, spec)
+    dom = [T.mk('fge', k_f, T.fconst(2)), T.mk('fge', T.mk('fsub', n_f, k_f), T.fconst(2))]
+    phat = T.mk('fdiv', k_f, n_f)
+    seen = set()
+    for p in paths:
+        v = p['value']
+        if p['rk'] != 'return' or not E.is_ok(v):
+            continue
+        k = p['kind']
+        variant, bounds = E.interval_parts(v)
+        seen.add(k)
+        if variant != 'TwoSided' or len(bounds) != 2:
+            m.violated_structurally('C02:wilson:shape:' + KNAME[k], 'C02:wilson:shape', 'proportion interval must be stored two-sided, got %s' % variant)
+            continue
+        check_oracle_args(m, 'C02:wilson', p['pc'], bounds, k, 'Zq')
+        lo, hi = [abstract_apps(b, {'Zq': Z}) for b in bounds]
+        hyp = [abstract_apps(c, {'Zq': Z}) for c in p['pc']] + dom
+
+        def root(b):        # (b - k/n)^2 = z^2 b(1-b)/n
+            return T.mk('feq', T.mk('fmul', T.mk('fsub', b, phat), T.mk('fsub', b, phat)),
+                        T.mk('fdiv', T.mk('fmul', T.mk('fmul', Z, Z), T.mk('fmul', b, T.mk('fsub', T.fconst(1), b))), n_f))
+        one, zero = T.fconst(1), T.fconst(0)
+        zpos = [T.mk('fge', Z, zero)]
+        if k == 0:
+            m.submit('C02:wilson:roots:two-sided', hyp, T.and_(root(lo), root(hi)), key='C02:wilson:roots:two-sided', note='both bounds solve the score equation, any real z')
+            m.submit('C02:wilson:order:two-sided', hyp + zpos, T.and_(T.mk('fle', zero, lo), T.mk('fle', lo, phat), T.mk('fle', phat, hi), T.mk('fle', hi, one)),
+                     key='C02:wilson:order:two-sided', note='0 <= lower root <= k/n <= upper root <= 1 for z >= 0')
+        elif k == 1:
+            m.submit('C02:wilson:roots:upper', hyp, T.and_(root(lo), T.mk('feq', hi, one)), key='C02:wilson:roots:upper', note='[root, 1]')
+            m.submit('C02:wilson:order:upper', hyp + zpos, T.and_(T.mk('fle', zero, lo), T.mk('fle', lo, phat)), key='C02:wilson:order:upper', note='finite bound is the LOWER root for z >= 0')
+            m.submit('C02:wilson:order:upper:neg-z', hyp + [T.mk('fle', Z, zero)], T.and_(T.mk('fle', phat, lo), T.mk('fle', lo, one)), key='C02:wilson:order:upper:neg-z',
+                     note='for a level below 1/2 (z <= 0) the bound moves above k/n (no absolute value on the span)')
+        else:
+            m.submit('C02:wilson:roots:lower', hyp, T.and_(root(hi), T.mk('feq', lo, zero)), key='C02:wilson:roots:lower', note='[0, root]')
+            m.submit('C02:wilson:order:lower', hyp + zpos, T.and_(T.mk('fle', phat, hi), T.mk('fle', hi, one)), key='C02:wilson:order:lower', note='finite bound is the UPPER root for z >= 0')
+            m.submit('C02:wilson:order:lower:neg-z', hyp + [T.mk('fle', Z, zero)], T.and_(T.mk('fle', zero, hi), T.mk('fle', hi, phat)), key='C02:wilson:order:lower:neg-z',
+                     note='for a level below 1/2 (z <= 0) the bound moves below k/n')
+        m.submit('C02:wilson:feasible:' + KNAME[k], hyp + zpos, None, expect='sat', key='C02:vacuity')
+    for k in (0, 1, 2):
+        if k not in seen:
+            m.stuck('C02:wilson:coverage', 'no Ok path for kind %d' % k)
+    m.collect()
+
+
+def wald(ctx, m):
+    paths = proportion_paths(m, 'ci_z_normal')
+    ten = T.iconst(10)
+    spec = {'InvalidSuccesses': T.mk('igt', k_i, n_i),
+            'TooFewSuccesses': T.and_(T.mk('ile', k_i, n_i), T.mk('ilt', k_i, ten)),
+            'TooFewFailures': T.and_(T.mk('ile', k_i, n_i), T.mk('ige', k_i, ten), T.mk('ilt', T.mk('isub', n_i, k_i), ten)),
+            'Ok': T.and_(T.mk('ige', k_i, ten), T.mk('ile', k_i, n_i), T.mk('ige', T.mk('isub', n_i, k_i), ten))}
+    domain_obligations(m, 'C02:z_normal', paths, spec)
+    phat = T.mk('fdiv', k_f, n_f)
+    W = T.var('W')
+    inner = T.mk('fdiv', T.mk('fmul', phat, T.mk('fsub', T.fconst(1), phat)), n_f)
+    wit = [T.mk('fge', W, T.fconst(0)), T.mk('feq', T.mk('fmul', W, W), inner), T.mk('fge', k_f, T.fconst(10)), T.mk('fge', T.mk('fsub', n_f, k_f), T.fconst(10))]
+    for p in paths:
+        v = p['value']
+        if p['rk'] != 'return' or not E.is_ok(v):
+            continue
+        k = p['kind']
+        variant, bounds = E.interval_parts(v)
+        if variant != 'TwoSided':
+            m.violated_structurally('C02:z_normal:shape:' + KNAME[k], 'C02:z_normal:shape', 'got %s' % variant)
+            continue
+        check_oracle_args(m, 'C02:z_normal', p['pc'], bounds, k, 'Zq')
+        lo, hi = [abstract_apps(b, {'Zq': Z}) for b in bounds]
+        lo_s, hi_s = T.mk('fsub', phat, T.mk('fmul', Z, W)), T.mk('fadd', phat, T.mk('fmul', Z, W))
+        goal = {0: T.and_(T.mk('feq', lo, lo_s), T.mk('feq', hi, hi_s)), 1: T.and_(T.mk('feq', lo, lo_s), T.mk('feq', hi, T.fconst(1))),
+                2: T.and_(T.mk('feq', lo, T.fconst(0)), T.mk('feq', hi, hi_s))}[k]
+        m.submit('C02:z_normal:formula:' + KNAME[k], [abstract_apps(c, {'Zq': Z}) for c in p['pc']] + wit, goal, key='C02:z_normal:formula:' + KNAME[k], note='k/n -/+ z*sqrt((k/n)(1-k/n)/n), far end 1 / 0 for one-sided')
+    m.collect()
+
+
+def ratio(ctx, m):
+    """ci_wilson_ratio(conf, n, k/n) must hand exactly k to ci_wilson."""
+    f = m.fn('ci_wilson_ratio')
+    rate = T.var('rate')
+    # stop at the call to ci_wilson: record its arguments
+    rec = []
+    orig = m.models.dispatch
+
+    def dispatch(mach, st, fid, callee, argv):
+        if callee.split('::')[-1] == 'ci_wilson':
+            rec.append((list(st['pc']), argv))
+            return [(None, ('adt', 'Result', 0, [('adt', 'Interval', 0, [('f', T.var('MARK_LO')), ('f', T.var('MARK_HI'))])]))]
+        return orig(mach, st, fid, callee, argv)
+    m.models.dispatch = dispatch
+    try:
+        res = m.run(f, [E.confidence(), E.iv('n'), ('f', rate)])
+    finally:
+        m.models.dispatch = orig
+    bad = [r for r in res if r.kind == 'stuck']
+    if bad:
+        m.stuck('C02:ratio', bad[0].value[1])
+        return
+    if len(rec) != 1:
+        m.stuck('C02:ratio', 'expected exactly one call to ci_wilson, saw %d' % len(rec))
+        return
+    pc, argv = rec[0]
+    if not (argv[1][0] == 'i' and argv[1][1] == n_i):
+        m.violated_structurally('C02:ratio:population', 'C02:ratio:population', 'population passed on is %s' % mir.show(argv[1]))
+    succ = argv[2][1]
+    # substitute rate := fl(k / n) and use the relative-error rounding model
+    succ_k = T.substitute(succ, {rate: T.mk('fdiv', k_f, n_f)})
+    pc_k = [T.substitute(c, {rate: T.mk('fdiv', k_f, n_f)}) for c in pc]
+    dom = [T.mk('ige', k_i, T.iconst(2)), T.mk('ile', k_i, T.mk('isub', n_i, T.iconst(2))), T.mk('ile', n_i, T.iconst(2 ** 32))]
+    goal = int_conversion_goal(succ_k, k_i)
+    m.submit('C02:ratio:implied-count', pc_k + dom, goal, sem=('RE', 53), key='C02:ratio:implied-count', timeout=120,
+             note='(k/n as f64) * n converted back gives exactly k for every 2 <= k <= n-2, n <= 2^32 (relative rounding error model)',
+             on_sat=lambda model, p: ratio_witness(ctx, m, succ, rate))
+    m.submit('C02:ratio:non-positive-rejected', [T.mk('fle', rate, T.fconst(0))] + pc, T.bconst(False), key='C02:ratio:non-positive', note='ci_wilson is not reached for a rate <= 0')
+    m.collect()
+
+
+def int_conversion_goal(succ, k):
+    """`succ == k` for succ = (P).round() as usize / P as usize, as an equivalent condition on the real P (k >= 1)."""
+    kf = T.mk('i2f', k)
+    half = T.fconst(Fraction(1, 2))
+    if succ[0] == 'f2i' and succ[1][0] == 'fround':
+        P = succ[1][1]
+        return T.and_(T.mk('fle', T.mk('fsub', kf, half), P), T.mk('flt', P, T.mk('fadd', kf, half)))
+    if succ[0] == 'f2i' and succ[1][0] in ('ffloor', 'ftrunc'):
+        P = succ[1][1]
+        return T.and_(T.mk('fle', kf, P), T.mk('flt', P, T.mk('fadd', kf, T.fconst(1))))
+    if succ[0] == 'f2i':
+        P = succ[1]
+        return T.and_(T.mk('fle', kf, P), T.mk('flt', P, T.mk('fadd', kf, T.fconst(1))))
+    return T.mk('ieq', succ, k)
+
+
+def ratio_witness(ctx, m, succ, rate):
+    """The relative-error model found the conversion can miss k: ask for a bit-precise f64 witness and replay it natively."""
+    from mirsmt import smt
+    from vlib import native
+    succ_k = T.substitute(succ, {rate: T.mk('fdiv', k_f, n_f)})
+    hyps = [T.mk('ige', k_i, T.iconst(2)), T.mk('ile', k_i, T.mk('isub', n_i, T.iconst(2))), T.mk('ile', n_i, T.iconst(2 ** 24)), T.mk('ine', succ_k, k_i)]
+    text = m.query_text(hyps, None, sem=('F', 11, 53))
+    for solver, tmo in (('cvc5', 240), ('z3-new', 400)):
+        verdict, out, dt = smt.run_solver(text, solver, tmo, ctx.seed)
+        ctx.solver_time += dt
+        if verdict == 'sat':
+            vals = dict(re_int(out))
+            if 'n' in vals and 'k' in vals:
+                return native.replay_ratio(ctx, vals['n'], vals['k'])
+    return False, None, 'no bit-precise witness found within the budget'
+
+
+def re_int(out):
+    import re
+    for mm in re.finditer(r'\(define-fun (\w+) \(\) Int\s+(\(- \d+\)|\d+)\)', out):
+        v = mm.group(2)
+        yield mm.group(1), -int(v[3:-1]) if v.startswith('(') else int(v)
+
+
+def frontends(ctx, m):
+    """ci(conf,n,k) and Stats::ci are single calls: ci -> ci_wilson(conf,n,k), Stats::ci -> ci(conf, population, successes)."""
+    cands = [g for g in m.fns if g.short == 'ci' and '<impl at' not in g.name and len(g.args) == 3 and 'usize' in g.args[1][1]]
+    if len(cands) != 1:
+        m.stuck('C02:frontend:ci', 'cannot identify proportion::ci in the MIR dump')
+        return
+    rec = []
+    orig = m.models.dispatch
+
+    def dispatch(mach, st, fid, callee, argv):
+        if callee.split('::')[-1] == 'ci_wilson':
+            rec.append(argv)
+            return [(None, ('opaque', 'WILSON-RESULT'))]
+        return orig(mach, st, fid, callee, argv)
+    m.models.dispatch = dispatch
+    try:
+        res = m.run(cands[0], [E.confidence(), E.iv('n'), E.iv('k')])
+        ok = len(res) == 1 and res[0].kind == 'return' and res[0].value == ('opaque', 'WILSON-RESULT') and len(rec) == 1 and rec[0][1][1] == n_i and rec[0][2][1] == k_i \
+            and rec[0][0][0] == 'symenum' and rec[0][0][2] == KIND and rec[0][0][3][0][1] == L
+        if ok:
+            ctx.record('C02:frontend:ci:term-identity', 'M', 'held', bound='syntactic', sample={'obligation': 'proportion::ci(conf,n,k) == ci_wilson(conf,n,k)', 'verdict': 'same terms'})
+        else:
+            m.violated_structurally('C02:frontend:ci:term-identity', 'C02:frontend:ci', 'proportion::ci does not return ci_wilson(conf, n, k)')
+        rec.clear()
+        fs = m.fn('ci', 'Stats', 'inherent') if False else [g for g in m.fns if g.short == 'ci' and 'proportion' in g.name and '<impl at' in g.name and len(g.args) == 2]
+        if len(fs) == 1:
+            st = ('adt', 'Stats', 0, [E.iv('n'), E.iv('k')])
+            ref, extra = E.self_ref(st)
+            res = m.run(fs[0], [ref, E.confidence()], extra)
+            ok = len(res) == 1 and res[0].kind == 'return' and res[0].value == ('opaque', 'WILSON-RESULT') and len(rec) == 1 and rec[0][1][1] == n_i and rec[0][2][1] == k_i
+            if ok:
+                ctx.record('C02:frontend:stats_ci:term-identity', 'M', 'held', bound='syntactic', sample={'obligation': 'Stats::ci(conf) == ci_wilson(conf, population, successes)', 'verdict': 'same terms'})
+            else:
+                m.violated_structurally('C02:frontend:stats_ci:term-identity', 'C02:frontend:stats_ci', 'Stats::ci does not return ci_wilson(conf, population, successes)')
+        else:
+            m.stuck('C02:frontend:stats_ci', 'cannot identify proportion::Stats::ci')
+    finally:
+        m.models.dispatch = orig
